@@ -104,6 +104,33 @@ def run(ctx):
         e = lb.expr_of_call(calls[0]['term'])
         # (key, module) of the same map entry
         okl = okl and sum(1 for a in e[2] if any(is_call(x, 'Iterator::next') for x in walk(a))) == 2
+    if not calls:
+        # resolved.modules().iter().try_for_each(|(key, module)| write_module(out_dir, key, &resolved, module))
+        for g_ in P.closures_of(lb):
+            cc = [c for c in g_.calls(lambda r: r['path'] == wm.id)]
+            if len(cc) != 1:
+                continue
+            tf = [c for c in lb.calls(lambda r: r['gpath'] and r['gpath'].endswith('Iterator::try_for_each')) if any(
+                isinstance(x, tuple) and x and x[0] == 'closure' and x[1] == g_.id for x in walk(lb.expr_of_call(c['term'])))]
+            if len(tf) != 1:
+                continue
+            te = lb.expr_of_call(tf[0]['term'])
+            recv = strip(expand(lb, te[2][0]))
+            adapters = [c_[3] for c_ in calls_in(recv) if re.search(r'Iterator::\w+$', c_[3]) and not c_[3].endswith('IntoIterator::into_iter')]
+            over_map = not adapters and any(isinstance(x, tuple) and x and x[0] == 'call' and re.search(r'HashMap<.*>::iter$|HashMap::<.*>::iter$', x[4] if len(x) > 4 else x[1]) or
+                                            is_call(x, 'ResolvedSemanticState::modules') for x in walk(recv))
+            ce = g_.expr_of_call(cc[0]['term'])
+            every = all(g_.dominates(cc[0]['block'], x['block']) for x in g_.exits()) and all(
+                any(is_call(y, 'write_module') for y in walk(expand(g_, x['expr']))) for x in g_.exits() if x['kind'] not in ('err_prop', 'err_own'))
+            # key and module are the two components of the closure's own argument (one map entry)
+            comps = set()
+            for a in ce[2]:
+                for x in walk(a):
+                    if isinstance(x, tuple) and x and x[0] == 'field' and x[2] in ('0', '1') and strip(x[1])[0] == 'arg' and strip(x[1])[1] == 2:
+                        comps.add(x[2])
+            handed_on = any(g.kind == 'reject' and g.pred[0] == 'fails' and find_calls(g.pred, 'try_for_each') for g in guards_of(lb)) or any(
+                x['kind'] in ('passthrough', 'other') and any(is_call(y, 'try_for_each') for y in walk(expand(lb, x['expr']))) for x in lb.exits())
+            okl = bool(over_map and every and comps == {'0', '1'} and handed_on)
     ctx.ob(['C14', 'C15'], 'R-ITER', 'C14-D1|every-module-written', okl, 'build() calls write_module for every module of the resolved state (unfiltered loop, key and module of the same entry, error propagated)', loc(lb.span))
     # lib::build discovers the inputs: every file `<in_dir>/**/*.pyxis` (default glob options) is handed to add_file
     disc = [c for c in lb.calls(lambda r: r['path'] and re.match(r'^glob::(glob|glob_with)$', r['path']))]
@@ -169,6 +196,8 @@ def run(ctx):
         else:
             # glob(..).filter_map(Result::ok).try_for_each(|p| state.add_file(in_dir, &p))?
             tfe = [c for c in lb.calls(lambda r: r['gpath'] and r['gpath'].endswith('Iterator::try_for_each'))]
+            # (the modules may be written by a second try_for_each: the one meant here is the one that is given this closure)
+            tfe = [c for c in tfe if any(isinstance(x, tuple) and x and x[0] == 'closure' and x[1] == g_.id for x in walk(lb.expr_of_call(c['term'])))] or tfe
             only_ok = every = prop = elem = False
             if len(tfe) == 1:
                 te = lb.expr_of_call(tfe[0]['term'])
